@@ -90,7 +90,18 @@ def make_scenario(engine: Engine, batch_seed: int, index: int, tier: str) -> dic
     return scen
 
 
+_REPLAY_ONLY_KEYS = ("violation", "digest", "reduced_from", "repo")
+
+
+def canonical(scen: dict) -> dict:
+    """The scenario as every execution sees it: what a replay file would contain after a JSON round trip (key order
+    sorted, tuples as lists, no replay-only bookkeeping), so that a run inside a batch and the replay of its file
+    produce the same event log byte for byte (logs may render parts of the scenario with repr())."""
+    return json.loads(json.dumps({k: v for k, v in scen.items() if k not in _REPLAY_ONLY_KEYS}, sort_keys=True, default=str))
+
+
 def safe_execute(engine: Engine, scen: dict) -> Result:
+    scen = canonical(scen)
     faulthandler.dump_traceback_later(RUN_WATCHDOG_S, exit=True)
     try:
         return engine.execute(scen)
